@@ -22,6 +22,20 @@ def handleFollow (args : List Sexp) : String :=
     | _, _, _ => "bad-case"
   | _ => "bad-case"
 
+/-- the same run, answering the delivered lines only: used for schedules in which the writer also appends *between*
+two polls of the reader (by `follow_exactly_once_in_order` and `follow_progress` the delivered sequence does not depend on
+where the appends fall; the number of retries does) -/
+def handleFollowDelivered (args : List Sexp) : String :=
+  match args with
+  | [.atom mode, capS, initS, .list chunkS] =>
+    match capS.nat?, initS.bytes?, chunkS.mapM Sexp.bytes? with
+    | some cap, some init, some chunks =>
+      let s0 := Follow.init init (mode == "head") cap
+      let s := drive (driveFuel s0 chunks) s0 chunks
+      s!"delivered {s.delivered.length}{showLines s.delivered}"
+    | _, _, _ => "bad-case"
+  | _ => "bad-case"
+
 def statusWord : Status Empty → String
   | .ok => "ok"
   | .readError => "readerr"
